@@ -10,7 +10,7 @@ BASE_CONSTS = dict(
     Watchers=set(), WatchStarts={0}, WatchPrefixes={0}, PrefixOf="<- MCPrefixOf",
     CacheSize=2, SubCap=2, SeqDetail=False,
     Readers=set(), Compactors=set(), CompactRevs=set(), MaxCompacts=0, DelFaults=set(),
-    GenHist=False,
+    EagerSeq=False, FixedOps="<- MCNoFixedOps", LazyWatchers=set(), AtomicWrites=False, GenHist=False,
 )
 
 MC_INV = {
